@@ -166,21 +166,46 @@ end
 
 /-! ### cause labels -/
 
+mutual
+def dictSepsItem : Item → List Nat
+  | .fused _ br _ kids _ _ =>
+    (if br == .braces || br == .angles then
+      kids.filterMap (fun k => match k with
+        | .leaf id kw _ => if kw == .comma || kw == .semi then some id else none
+        | _ => none)
+     else []) ++ dictSeps kids
+  | _ => []
+/-- IDs of the `,` / `;` leaf tokens that stand directly inside a `{…}` / `<…>` pair -/
+def dictSeps : List Item → List Nat
+  | [] => []
+  | it :: r => dictSepsItem it ++ dictSeps r
+end
+
+/-- the skippable tokens that are comments -/
+def commentIds : List Piece → List Nat
+  | [] => []
+  | .sk s :: r => (if s.comment then [s.id] else []) ++ commentIds r
+  | _ :: r => commentIds r
+
 /-- plan-level causes of a failing round trip -/
 def planCauses (e : Env) (items : List Item) (plans : List (List Plan)) (isFile : Bool) : List String :=
   let runs := plans.map (fun p => traceList e [] p)
   let tr := runs.flatMap (·.2)
   let want := piecesDFS items
-  let dropped := (skipIds want).any (fun id => !((bucketIds e.ix).contains id))
-  let notPrinted := (natIds want).any (fun id => !((natIds tr).contains id))
+  let droppedIds := (skipIds want).filter (fun id => !((bucketIds e.ix).contains id))
+  let dropped := !droppedIds.isEmpty
+  let droppedComment := droppedIds.any (fun id => (commentIds want).contains id)
+  let missingToks := (natIds want).filter (fun id => !((natIds tr).contains id))
+  let notPrinted := !missingToks.isEmpty
+  let onlySeps := missingToks.all (fun id => (dictSeps items).contains id)
   let reordered := !increasing (tokIds tr)
   let pendingLeft := runs.any (fun r => !r.1.isEmpty)
   let exact := if isFile then tr == want
     else tr.length ≤ want.length && tr == want.take tr.length &&
          (want.drop tr.length).all (fun p => match p with | .sk _ => true | _ => false) &&
          (want.drop tr.length).length ≤ (items.reverse.takeWhile (fun it => match it with | .skip _ => true | _ => false)).length
-  (if dropped then ["trivia-dropped"] else []) ++
-  (if notPrinted then ["token-not-printed"] else []) ++
+  (if dropped then [if droppedComment then "comment-dropped" else "whitespace-dropped"] else []) ++
+  (if notPrinted then [if onlySeps then "literal-separator-not-printed" else "token-not-printed"] else []) ++
   (if reordered then ["reordered"] else []) ++
   (if tr.contains .gap then ["gap-synthesized"] else []) ++
   (if tr.contains .reflow then ["comments-reflowed"] else []) ++
